@@ -90,7 +90,9 @@ print(json.dumps({'zonedbpy': {n: hash_name(n) for n in names}, 'keys': sorted(z
     fresh = {}
     # a source with two zone names whose djb2 hashes collide: the compiler must refuse it (or emit distinct ids)
     collide = ['Zone\tTest/Harbor_ab\t1:00\t-\tTST', 'Zone\tTest/Harbor_bA\t2:00\t-\tUST', 'Zone\tTest/Other\t3:00\t-\tVST']
-    for sname, lines in (('tz2025b', compiler.lines_2025b()), ('shipped-zonedbx-lines', compiler.lines_shipped('zonedbx')), ('colliding-names', collide)):
+    # zone names that differ only in '-' / '_' normalise to the same C++ identifier; a link to the one that is dropped must not survive
+    similar = ['Zone\tTest/Port-Alpha\t1:00\t-\tTST', 'Zone\tTest/Port_Alpha\t2:00\t-\tUST', 'Zone\tTest/Other\t3:00\t-\tVST', 'Link\tTest/Port_Alpha\tTest/Harbour', 'Link\tTest/Other\tTest/Elsewhere']
+    for sname, lines in (('tz2025b', compiler.lines_2025b()), ('shipped-zonedbx-lines', compiler.lines_shipped('zonedbx')), ('colliding-names', collide), ('similar-names', similar)):
         w = os.path.join(work, sname)
         os.makedirs(w)
         for scope in ('basic', 'extended'):
@@ -98,6 +100,8 @@ print(json.dumps({'zonedbpy': {n: hash_name(n) for n in names}, 'keys': sorted(z
             if res is None:
                 if sname == 'colliding-names' and 'ollision' in err[1]:
                     chk.add(collision_refused=True)
+                elif sname == 'similar-names':
+                    chk.add(similar_names_refused=True)     # refused loudly (KeyError): nothing is emitted
                 else:
                     chk.violation('%s:%s:compiler' % (sname, scope), 'compiler failed: %s' % (err,), {})
                 continue
@@ -108,7 +112,9 @@ print(json.dumps({'zonedbpy': {n: hash_name(n) for n in names}, 'keys': sorted(z
             sym2name = {s: n for s, n in zones}
             ids = [{'n': nid(sym2name[s]), 'id': limbs(v)} for s, v in zid.items() if s in sym2name]
             label = '%s:%s' % (sname, scope)
-            lk = [{'alias': nid(a), 'target': nid(t), 'resolves': nid(res['emitted_links'].get(a, '?'))} for s, a, t in links]
+            # resolve each alias through the generated C++: `const ZoneInfo& kZoneAlias = kZoneTarget;` -> the zone that symbol defines
+            alias_sym = dict(re.findall(r'const \w+::ZoneInfo& (kZone\w+) = (kZone\w+);', cpp))
+            lk = [{'alias': nid(a), 'target': nid(res['emitted_links'].get(a, t)), 'resolves': nid(sym2name.get(alias_sym.get(s, '?'), '?'))} for s, a, t in links]
             dbs.append({'label': label, 'ids': ids, 'registry': [nid(n) for _s, n in reg], 'zones': [nid(n) for n in res['emitted_zones']], 'zoneset': 1, 'links': lk})
             dbs.append({'label': label + ':kZoneId-constants', 'ids': [{'n': nid(n), 'id': limbs(int(v, 16))} for _s, v, n in kids], 'registry': [], 'zones': [], 'zoneset': 0, 'links': []})
             if set(zid) != {s for s, _n in zones}:
